@@ -262,6 +262,59 @@ theorem model_candStep_candFrom (s : St) (acc : AList Active) (p : Int) :
   unfold candStep candFrom
   cases Tracker.get s.tracker p <;> simp
   cases s.active.get? p <;> simp
+
+/-- what one iteration of the candidate loop of RefreshAssignments reads for partition `p`: the tracker's oldest request
+and the entry of the active map, as they are in state `s` -/
+def bindOwned (σ : Env) (s : St) (p : Int) : Env :=
+  let r := Tracker.get s.tracker p
+  let a := s.active.get? p
+  upd (upd (upd (upd (upd (upd (upd σ "partition.Partition" p)
+    "rc.tracker.GetRecoveryRequest#0" (if r.isSome then 1 else 0))
+    "recoveryRequest.FromOffset" ((r.map (·.fromO)).getD 0)) "recoveryRequest.ToOffset" ((r.map (·.toO)).getD 0))
+    "lookup rc.activePartitionMap#1" (if a.isSome then 1 else 0))
+    "recoveryState.fromOffset" ((a.map (·.fromO)).getD 0)) "recoveryState.toOffset" ((a.map (·.toO)).getD 0)
+
+/-- the candidate an iteration constructs, read off its two construction events -/
+def candOfCalls (calls : List (String × List Int)) : Option Active :=
+  match calls.find? (fun c => c.1 == "new kafka.TopicPartition {Topic,Partition,Offset}"),
+        calls.find? (fun c => c.1 == "new partitionRecoveryState {partition,fromOffset,toOffset}") with
+  | some (_, [_, _, off]), some (_, [_, f, t]) => some ⟨off, f, t⟩
+  | _, _ => none
+
+/-- `for _, partition := range rc.assignedPartitions { body }`: the body once per owned partition, in order; a constructed
+candidate is stored under the partition (`recoveryCandidates[partition.Partition] = recoveryState`) -/
+def rangeOwned (body : S) (s : St) : List Int → Env → AList Active → AList Active
+  | [], _, acc => acc
+  | p :: rest, σ, acc =>
+    let r := run body (bindOwned σ s p)
+    rangeOwned body s rest r.env (match candOfCalls r.calls with | some a => acc.set p a | none => acc)
+
+/-- **the candidate loop of RefreshAssignments = the model's `candidates`**: for every state and every list of owned
+partitions the map built by the translated loop is `owned.foldl (candStep s)` -/
+theorem translated_refreshCandidates_loop (s : St) (owned : List Int) : ∀ (σ : Env) (acc : AList Active),
+    rangeOwned Trans.refreshCandidateBody s owned σ acc = owned.foldl (candStep s) acc := by
+  induction owned with
+  | nil => intro σ acc; rfl
+  | cons p rest ih =>
+    intro σ acc
+    simp only [rangeOwned, List.foldl_cons]
+    rw [ih]
+    congr 1
+    have hb := translated_refreshCandidateBody (bindOwned σ s p)
+    simp only [] at hb
+    obtain ⟨_, _, hc, _⟩ := hb
+    rw [hc, model_candStep_candFrom]
+    cases hr : Tracker.get s.tracker p with
+    | none => simp [bindOwned, hr, candOfCalls]
+    | some r =>
+      cases ha : s.active.get? p with
+      | none => simp [bindOwned, hr, ha, candOfCalls, candFrom]
+      | some a => simp [bindOwned, hr, ha, candOfCalls, candFrom]
+
+theorem translated_refreshCandidates (s : St) (σ : Env) :
+    rangeOwned Trans.refreshCandidateBody s s.owned σ [] = candidates s :=
+  translated_refreshCandidates_loop s s.owned σ []
+
 end Translated
 
 theorem closure_unchanged : GeneratedClo.C09 = ExpectedClo.C09 := by rfl
